@@ -20,12 +20,12 @@ run() { # label props...
 }
 for d in seeded/*/; do
   n=$(basename $d); P=$(echo $n | cut -d- -f1)
-  git -C $R checkout -q -- . ; git -C $R apply $d/patch.diff || { echo "$n: patch does not apply"; continue; }
+  git -C $R checkout -q -- . ; git -C $R apply "$(pwd)/$d/patch.diff" || { echo "$n: patch does not apply"; continue; }
   run "seeded:$n" $P
   git -C $R checkout -q -- .
 done
 # reversal of the fix commits: each must be reported again
-grep "^fixed:" KNOWN_FINDINGS.txt | while read -r _ prop commit rest; do
+[ -n "$SKIP_REVERTS" ] || grep "^fixed:" KNOWN_FINDINGS.txt | while read -r _ prop commit rest; do
   P=$(echo $prop | cut -d= -f2)
   git -C $R checkout -q -- . ; git -C $R show $commit | git -C $R apply -R || { echo "revert of $commit does not apply"; continue; }
   extra=$(echo "$rest" | grep -o "also C[0-9, C]*" | grep -o "C[0-9]*" | tr '\n' ' ')
